@@ -324,8 +324,8 @@ def syn_class(attrs, call, nodata=False):
                 def m(self, *args):
                     out = [nm]
                     for a in args:
-                        if isinstance(a, _Recorder):
-                            a.fill([nm, "filled"])
+                        if a is args[0] and len(args) == 2 and callable(getattr(a, "fill", None)):
+                            a.fill([nm, args[1]])          # used as fill_into(element, value)
                             out.append("EL")
                         elif hasattr(a, "__next__"):
                             out.append(list(a))
@@ -874,8 +874,13 @@ def adapter_observe(case):
             kw["compute"] = name2
     elif name is not None:
         kw[{"Call": "call", "SourceEl": "call", "Run": "run", "FillInto": "fill_into"}[ad]] = name
-    if ad == "Run" and case["el"]["k"] == "junk" and case["el"].get("v") == "none" and name is not None:
-        kw["run"] = _given_run          # Run(None, run=<function>)
+    given = None
+    if ad == "Run" and el is None and name is not None:
+        # Run(None, run=...): the argument is the run function itself — or, as generated here too, something that is not
+        # callable (the string as it is, a number)
+        given = {"func": _given_run, "str": name, "int": 5}[case.get("given", "func")]
+        kw["run"] = given
+    flags["given_callable"] = callable(given) if given is not None else None
     try:
         obj = getattr(lena.core, ad)(el, **kw)
     except Exception as e:
@@ -938,7 +943,7 @@ def adapter_observe(case):
                     e3.fill(v)
                 return e3.compute()
             cands["fcRun"] = use("fcRun", fcr)
-        cands["given"] = use("given", _given_run)
+        cands["given"] = use("given", given if given is not None else _given_run)
     if ad == "FillInto":
         if callable(e2):
             cands["callDefault"] = use("cd", lambda element, v: element.fill(e2(v)))
@@ -979,7 +984,8 @@ def adapter_reference(case, flags):
                 return "fcRun"
             return "LenaTypeError"
         if flags["none"]:
-            return "given"
+            # "If run argument is supplied, el must be None or ..." with "Run(None, run=<my_function>)": a function
+            return "given" if flags.get("given_callable") in (True, None) else "LenaTypeError"
         return "method:" + name if meth(name) else "LenaTypeError"
     if ad == "FillInto":
         if name is None:
@@ -1091,8 +1097,22 @@ def model_requests(case):
         names = sorted(set(ADAPTER_NAMES + [n for n in (case.get("name"), case.get("name2")) if n]))
         return [{"op": "adapter", "adapter": case["adapter"], "attrs": {n: attr_state(el0, n) for n in names},
                  "callable": bool(callable(el0)), "split": isinstance(el0, lena.core.Split), "none": el0 is None,
-                 "name": case.get("name"), "name2": case.get("name2")}]
+                 "name": case.get("name"), "name2": case.get("name2"),
+                 "el": case["el"] if case["el"]["k"] not in ("split", "sequence", "list", "genfun") else None}]
     raise ValueError(op)
+
+
+def _den_norm(j):
+    """a model value in the encoding of `enc_any` (tuples as lists)"""
+    if isinstance(j, list):
+        return [_den_norm(x) for x in j]
+    if isinstance(j, dict):
+        if "t" in j:
+            return [_den_norm(x) for x in j["t"]]
+        if "q" in j:
+            return {"obj": "float"}
+        return {k: _den_norm(v) for k, v in j.items()}
+    return j
 
 
 def _canon_out(m):
@@ -1178,12 +1198,22 @@ def compare(case, res, replies):
         return None
     if op == "adapter":
         ref = adapter_reference(case, res["flags"])
-        if m.get("spec_accepts") != (ref != "LenaTypeError"):
+        if res["flags"].get("given_callable") is False:
+            pass        # the model's `runAccepts` follows the code (defect 1); the oracle holds the documented rule
+        elif m.get("spec_accepts") != (ref != "LenaTypeError"):
             return f"specification side: accepts={m.get('spec_accepts')} vs the documented rule {ref}"
-        if ref != "LenaTypeError" and m.get("spec_binding") != ref:
+        elif ref != "LenaTypeError" and m.get("spec_binding") != ref:
             return f"specification side: binding {m.get('spec_binding')} vs the documented rule {ref}"
+        if res["flags"].get("given_callable") is False:
+            # Run(None, run=<not callable>): the model transcribes the current code (accepted, mode "given"); after the
+            # proposed fix notes/C05_defect_1 the code raises LenaTypeError: both are accepted here, the ORACLE decides
+            if res["e"] == "LenaTypeError":
+                return None
         if res["e"] is not None or "e" in m:
             return None if res["e"] == m.get("e") else f"impl {res['e']} vs model {m}"
+        if m.get("den") is not None and case.get("given", "func") == "func" and _den_norm(m["den"]) != res["obs"]:
+            return (f"meaning: the adapter's method gives {res['obs']} but the model's denotation of the binding "
+                    f"{m['mode']} gives {_den_norm(m['den'])}")
         mode = m["mode"]
         if mode not in res["cands"]:
             return f"model mode {mode} is not a possible binding ({sorted(res['cands'])})"
@@ -1388,7 +1418,7 @@ def oracle(case, res):
         if res["e"] is not None:
             return f"documented as accepted (binding {exp}) but construction raised {res['e']}; {what}"
         if exp not in res["cands"]:
-            return None
+            return f"the documented binding {exp} could not be observed directly ({sorted(res['cands'])}); {what}"
         if res["cands"][exp] != res["obs"]:
             return (f"the adapter's method gives {res['obs']} but the wrapped method ({exp}) invoked directly gives "
                     f"{res['cands'][exp]}; {what}")
@@ -1637,6 +1667,10 @@ def adapter_cases():
             {"k": "acc", "a": "sum"}, {"k": "acc", "a": "mean"}, {"k": "acc", "a": "store", "group": True},
             {"k": "acc", "a": "count", "name": "n"}, {"k": "reverse"}, {"k": "end"}, {"k": "split"}, {"k": "sequence"},
             {"k": "list"}, {"k": "genfun"}, {"k": "junk", "v": "int"}, {"k": "junk", "v": "none"}, {"k": "setctx"}]
+    for name in ("run", "missing", "fill", "my"):
+        for given in ("func", "str", "int"):
+            cases.append({"op": "adapter", "adapter": "Run", "name": name, "given": given,
+                          "el": {"k": "junk", "v": "none"}})
     for el in real:
         for ad in ("Call", "SourceEl", "Run", "FillInto"):
             for name in (None, "run", "fill_into", "fill", "missing", "__call__"):
@@ -1909,6 +1943,8 @@ def classify(case, res):
 def signature(case, failure):
     op = case["op"]
     if op == "adapter":
+        if case.get("given") in ("str", "int"):
+            return "adapter:Run(None, run=<not callable>)"
         return f"adapter:{case['adapter']}:{case['el']['k']}:{case.get('name')}:{case.get('name2')}"
     ks = []
     els = (case["args"] if op in ("chain", "fillseq_init") else [case["el"]] if op == "stage"
